@@ -51,6 +51,16 @@ func (x *Exec) evalSpecBool(fr *Frame, st, old *State, n *SpecNode, extra map[st
 	for k, v := range extra {
 		env[k] = v
 	}
+	if fr != nil {
+		// names recorded when the contracts were written, for locals that were merely renamed since
+		for oldName, newName := range x.prog.renamedLocals(fr.fn) {
+			if _, have := env[oldName]; !have {
+				if v, ok := env[newName]; ok {
+					env[oldName] = v
+				}
+			}
+		}
+	}
 	if old == nil {
 		old = st
 	}
